@@ -520,6 +520,8 @@ def run(ctx: RuleContext, p: Program) -> None:
     ctx.try_rule(_c12.rule_esc_rt, p, _c12.grammar(p), 'ESC-RT')
     from . import costsem as _cs
     ctx.try_rule(_cs.rule_cost_sem, p, 'COST-SEM')
+    from . import descsem as _dsx
+    ctx.try_rule(_dsx.rule_txn_sem, p, 'TXN-SEM')
     from . import viewlive as _vl
     ctx.try_rule(_vl.rule_store_edge, p, 'STORE-EDGE')
     ctx.not_decided += ['survival of values through print and re-parse', 'value domains of each token type (C12)',
